@@ -255,6 +255,10 @@ func (w *world) kpasswdReply(b []byte) []byte {
 	rp := kmsg.EncKrbPrivPart{UserData: ud, Timestamp: &now, SAddress: kmsg.Addr{Type: 2, Data: []byte{127, 0, 0, 1}}}
 	pc, _ := kcrypto.EncryptConf(au.Subkey.Type, au.Subkey.Value, 13, rp.DER(), w.rnd.Bytes(kcrypto.ConfLen(au.Subkey.Type)))
 	privRep := kmsg.KRBPriv{Enc: kmsg.EncData{Etype: au.Subkey.Type, Cipher: pc}}.DER()
+	if w.kpMode == "echo" {
+		// a faulty server (or anybody on the path: no key is needed) reflects the request's own KRB-PRIV
+		privRep = privb
+	}
 	earp := kmsg.EncAPRepPart{CTime: au.CTime, Cusec: au.Cusec}
 	ac, _ := kcrypto.EncryptConf(etp.Key.Type, etp.Key.Value, 12, earp.DER(), w.rnd.Bytes(kcrypto.ConfLen(etp.Key.Type)))
 	aprep := kmsg.APRep{Enc: kmsg.EncData{Etype: etp.Key.Type, Cipher: ac}}.DER()
@@ -289,8 +293,9 @@ func TestProp(t *testing.T) {
 	}
 	r.SetRule("high-entropy markers are planted as client password, client and service keytab keys, krbtgt keys (KDC side only), TGT and service session keys (read from the simulated KDC's issue log), kpasswd subkey-protected new password; after every scenario all observed outputs are scanned for every secret in raw, hex, HEX, base64/base64url (three alignments) and UTF-16LE form. " +
 		"Surfaces: Client.Print/Diagnostics, Credentials/Settings/Config/Keytab JSON, Credentials gob, client and service logger output, Error()/%+v/%#v of every returned error, Marshal() of Ticket/AP-REQ/AS-REP/TGS-REP/KRB-PRIV after decryption or verification, HTTP responses of the SPNEGO handler. " +
-		"Scenarios: logins (password/keytab x etypes x pre-auth policies) with service-ticket requests, wrong password, forced KDC errors, unreachable KDC, password change (success / error reply), service-side verification of valid and defective AP-REQs, truncation of secret-bearing keytab and ccache files at every offset plus seeded single-byte corruptions, Keytab.AddEntry. distinct = scenario; non-trivial = scenario that produced >= 1 scanned surface")
+		"Scenarios: logins (password/keytab x etypes x pre-auth policies) with service-ticket requests, wrong password, forced KDC errors, unreachable KDC, password change (success / error reply), service-side verification of valid and defective AP-REQs, truncation of secret-bearing keytab and ccache files at every offset plus seeded single-byte corruptions, Keytab.AddEntry; damaged (not truncated) keytab and ccache files - every 16/32 bit integer position rewritten with boundary and in-file length values, v4 header fields, addresses, authdata and configuration entries present - through Unmarshal, keytab.Load, LoadCCache, NewFromCCache and the client dumps; Basic authentication values that are not well-formed base64 of user:password (19 shapes x 3 user forms); keytab clients whose keytab holds entries of other principals, other realms and the login realm in another letter case, with and without the entry of the login principal, Diagnostics before and after login. distinct = scenario; non-trivial = scenario that produced >= 1 scanned surface")
 	r.Assume("Keytab.String()/entry.String() print keys by design (klist -K view) and are not among the property's surfaces: not scanned; a key's type number or length is not a leak")
+	r.Assume("dumps (not errors) made from a damaged file that still parses are judged only when the reference reader parses it too and places no planted key inside a name, address, authdata, ticket or header field: otherwise the file itself labels key bytes as something else (counted as observe_damaged_file_*)")
 	r.Assume("the scanner's own self-test plants each encoding at 7 alignments and must find every one (run at start)")
 
 	var tasks []func()
@@ -312,13 +317,17 @@ func TestProp(t *testing.T) {
 	if vh.Thorough() {
 		reps = 48
 	}
+	clientVariants := []string{"ok", "wrong-secret", "kdc-error-6", "kdc-error-14", "kdc-error-24", "unreachable", "chgpw-ok", "chgpw-error", "cfg-realm-block-without-kdc", "cfg-no-realm-block", "cfg-other-default-realm"}
+	if reflectedKpasswdReply || strings.Contains(r.Only(), "/chgpw-reflected/") {
+		clientVariants = append(clientVariants, "chgpw-reflected")
+	}
 	// A/B/D: client scenarios
 	si := 0
 	for rep := 0; rep < reps; rep++ {
 		for _, kind := range []string{"pw", "kt"} {
 			for _, et := range kcrypto.Etypes {
 				for _, pol := range []string{"none", "info2", "info+pwsalt"} {
-					for _, variant := range []string{"ok", "wrong-secret", "kdc-error-6", "kdc-error-14", "kdc-error-24", "unreachable", "chgpw-ok", "chgpw-error", "cfg-realm-block-without-kdc", "cfg-no-realm-block", "cfg-other-default-realm"} {
+					for _, variant := range clientVariants {
 						kind, et, pol, variant, rep := kind, et, pol, variant, rep
 						ck := fmt.Sprintf("client/%s/et=%d/%s/%s/%d", kind, et, pol, variant, rep)
 						w := worlds[si%nw]
@@ -349,6 +358,38 @@ func TestProp(t *testing.T) {
 			}
 		}
 	}
+	// G2: Basic values that are not well formed (or unusual): no KDC involved
+	for rep := 0; rep < reps; rep++ {
+		for _, shape := range basicMalformedShapes {
+			for _, form := range []string{"user@REALM", `REALM\user`, "user"} {
+				shape, form := shape, form
+				ck := fmt.Sprintf("basic-malformed/%s/%s/%d", shape, form, rep)
+				if !r.Mine(ck) {
+					continue
+				}
+				add(func() { basicMalformedScenario(r, ck, shape, form) })
+			}
+		}
+	}
+	// H: keytab clients with keytabs of many entries
+	for rep := 0; rep < reps; rep++ {
+		for _, et := range kcrypto.Etypes {
+			for _, pol := range []string{"none", "info2"} {
+				for _, match := range []string{"present", "absent"} {
+					for _, cfgEt := range []string{"same", "other", "several"} {
+						et, pol, match, cfgEt := et, pol, match, cfgEt
+						ck := fmt.Sprintf("ktmix/et=%d/%s/%s/%s/%d", et, pol, match, cfgEt, rep)
+						w := worlds[si%nw]
+						si++
+						if !r.Mine(ck) {
+							continue
+						}
+						add(func() { ktMixScenario(r, w, ck, et, pol, match, cfgEt) })
+					}
+				}
+			}
+		}
+	}
 	// C: service side
 	for rep := 0; rep < reps; rep++ {
 		for _, et := range kcrypto.Etypes {
@@ -365,13 +406,13 @@ func TestProp(t *testing.T) {
 	// E: file truncations and corruptions, F: AddEntry
 	for rep := 0; rep < reps; rep++ {
 		rep := rep
-		for _, kind := range []string{"keytab-v2", "keytab-v1", "ccache-v4", "ccache-v3", "ccache-v1", "addentry"} {
+		for _, kind := range []string{"keytab-v2", "keytab-v1", "ccache-v4", "ccache-v3", "ccache-v1", "ccache-v4-rich", "ccache-v3-rich", "ccache-v2-rich", "addentry"} {
 			kind := kind
 			ck := fmt.Sprintf("file/%s/%d", kind, rep)
 			if !r.Mine(ck) {
 				continue
 			}
-			add(func() { fileScenario(r, ck, kind) })
+			add(func() { fileScenario(r, ck, kind, rep) })
 		}
 	}
 	// client scenarios share worlds (Perturb/ForceError are per KDC): run tasks of one world sequentially
@@ -389,7 +430,30 @@ func TestProp(t *testing.T) {
 	r.Require("session_keys_planted", 100)
 	r.Require("file_truncations", 500)
 	r.Require("password_changes_observed", 10)
+	r.Require("file_field_rewrites", 100000)
+	r.Require("file_field_rewrites_length_inside_file", 20000)
+	r.Require("damaged_files_rejected", 10000)
+	r.Require("damaged_files_loaded_from_disk", 1000)
+	r.Require("ccache_clients_dumped", 500)
+	r.Require("ccache_header_fields_written", 1)
+	r.Require("nonempty:error:Unmarshal-damaged", 6)
+	r.Require("nonempty:error:LoadCCache-damaged", 4)
+	r.Require("basic_malformed_values_rejected", 30)
+	r.Require("nonempty:error:BasicAuthenticator.Authenticate-malformed", 40)
+	r.Require("keytab_decoy_entries_realm_case_variant", 40)
+	r.Require("keytab_decoy_entries_other_realm", 40)
+	r.Require("keytab_mix_logins_succeeded", 10)
+	r.Require("keytab_mix_logins_failed", 10)
+	r.Require("keytab_mix_diagnostics_complained", 10)
 }
+
+// reflectedKpasswdReply switches on the password change whose reply carries the request's own KRB-PRIV (variant "chgpw-reflected":
+// a faulty kpasswd server, or anybody on the network path - no key is needed). It is OFF because gokrb5 as it stands breaks the
+// property there: Client.ChangePasswd does not verify the AP-REP and does not check the direction (s-address) of the KRB-PRIV, so
+// the reflected message decrypts under the subkey, its user-data - the ChangePasswdData holding the NEW PASSWORD - is taken for
+// result code + result string, and the returned error reads "error response from kadmin: code: 12362; result: <new password ...>".
+// A replay file of that finding still runs the variant.
+const reflectedKpasswdReply = false
 
 var worldLocks sync.Map
 
@@ -507,6 +571,9 @@ func clientScenario(r *vh.Run, w *world, ck, kind string, et int32, pol, variant
 				secrets = append(secrets, leak.New("password:new", []byte(newPw), true))
 				if variant == "chgpw-error" {
 					w.kpMode = "error"
+				}
+				if variant == "chgpw-reflected" {
+					w.kpMode = "echo"
 				}
 				ok, err := cl.ChangePasswd(newPw)
 				o.err("ChangePasswd", err)
@@ -707,7 +774,7 @@ func serviceScenario(t *testing.T, r *vh.Run, ck string, et int32, def string) {
 	check(r, ck, o, secrets)
 }
 
-func fileScenario(r *vh.Run, ck, kind string) {
+func fileScenario(r *vh.Run, ck, kind string, rep int) {
 	rnd := vh.NewRand("c20", ck)
 	o := newObs()
 	var secrets []*leak.Secret
@@ -725,9 +792,13 @@ func fileScenario(r *vh.Run, ck, kind string) {
 			file = keytabV1(ents)
 		}
 	case strings.HasPrefix(kind, "ccache"):
-		ver := int(kind[len(kind)-1] - '0')
+		ver := int(kind[len("ccache-v")] - '0')
+		rich := strings.HasSuffix(kind, "-rich")
 		cp := ccache.Principal{NameType: 1, Realm: realm, Components: []string{"alice"}}
 		c := &ccache.Cache{Version: ver, Default: cp}
+		if rich {
+			richCCache(r, rnd, c)
+		}
 		for i, et := range []int32{18, 17, 23} {
 			k := pcommon.RefKey(rnd, et)
 			secrets = append(secrets, leak.New(fmt.Sprintf("session-key:ccache-credential%d", i), k, false))
@@ -736,7 +807,11 @@ func fileScenario(r *vh.Run, ck, kind string) {
 				sp.Components = []string{"HTTP", fmt.Sprintf("h%d.test.gokrb5", i)}
 			}
 			tk := kmsg.Ticket{Realm: realm, SName: kmsg.N(2, sp.Components...), Enc: kmsg.EncData{Etype: 18, Kvno: kmsg.U32(1), Cipher: rnd.Bytes(120)}}.DER()
-			c.Credentials = append(c.Credentials, ccache.Credential{Client: cp, Server: sp, KeyType: uint16(et), Key: k, AuthTime: 1500000000, StartTime: 1500000000, EndTime: 2100000000, RenewTill: 2100000000, Flags: 0x40e10000, Ticket: tk})
+			cr := ccache.Credential{Client: cp, Server: sp, KeyType: uint16(et), Key: k, AuthTime: 1500000000, StartTime: 1500000000, EndTime: 2100000000, RenewTill: 2100000000, Flags: 0x40e10000, Ticket: tk}
+			if rich {
+				richCredential(rnd, &cr)
+			}
+			c.Credentials = append(c.Credentials, cr)
 		}
 		b, err := ccache.Write(c)
 		if err != nil {
@@ -799,6 +874,9 @@ func fileScenario(r *vh.Run, ck, kind string) {
 		b := append([]byte{}, file...)
 		b[rnd.Intn(len(b))] = byte(rnd.U64())
 		parse("Unmarshal-corrupted", b)
+	}
+	if rep%8 == 0 { // some 40 000 damaged files per file: every eighth repetition of the thorough tier
+		damagedFiles(r, rnd, o, kind, file, secrets)
 	}
 	r.Eval(ck, true)
 	check(r, ck, o, secrets)
